@@ -272,7 +272,7 @@ pub fn run(tier: Tier) {
     // ---------------- pairs of features: the declared version is the maximum
     let mut pair_n = 0usize;
     let reps: Vec<&Feature> = feats.iter().filter(|f| !f.block_scope && (f.name.ends_with("/fact") || f.name.ends_with("/check") || f.name.starts_with("check/") || f.name.starts_with("scope/rule"))).collect();
-    let pairs: Vec<(usize, usize)> = (0..reps.len()).flat_map(|i| ((i + 1)..reps.len()).map(move |j| (i, j))).filter(|(i, j)| tier == Tier::Thorough || (i * 31 + j) % 4 != 3).collect();
+    let pairs: Vec<(usize, usize)> = (0..reps.len()).flat_map(|i| ((i + 1)..reps.len()).map(move |j| (i, j))).filter(|_| true).collect();
     pair_n += pairs.len();
     pairs.par_iter().for_each(|(i, j)| {
         let (a, c) = (reps[*i], reps[*j]);
@@ -288,7 +288,7 @@ pub fn run(tier: Tier) {
     });
 
     // ---------------- signature version along key-algorithm sequences (E-hist)
-    let depth = tier.pick(4, 5);
+    let depth = tier.pick(5, 6);
     let sig_states = AtomicUsize::new(0);
     let initial: Vec<Op> = ALGS.iter().flat_map(|r| ALGS.iter().flat_map(move |n| ["b0", "b5"].into_iter().map(move |c| Op::Build { root: *r, next: *n, content: c, kid: None }))).collect();
     let next = |_h: &[Op], _t: &Tok| {
